@@ -141,6 +141,40 @@ func recvConfigs(thorough bool) []config {
 	return out
 }
 
+// the Transport as subject
+func transportConfigs(thorough bool) []tconfig {
+	var out []tconfig
+	depth := 4
+	body := []int64{1, 5}
+	wuk := []int64{1, 7, maxW}
+	setv := []int64{0, 5, maxW}
+	lens := []int64{1, 5, 16384}
+	pads := []int{-1, 255}
+	if thorough {
+		depth = 5
+		body = []int64{1, 5, 70000}
+		wuk = []int64{1, 2, 7, maxW}
+		setv = []int64{0, 1, 5, maxW}
+		lens = []int64{0, 1, 5, 16384}
+		pads = []int{-1, 0, 1, 255}
+	}
+	// request bodies against the server's windows
+	for _, iws := range []int64{0, 1, 5} {
+		for _, room := range []int64{-1, 0, 5} {
+			out = append(out, tconfig{Name: fmt.Sprintf("transport/send/iws%d/conn%d", iws, room), SrvIWS: iws, ConnRoom: room, PerStream: 20000, PerConn: 65535,
+				BodyN: body, WUk: wuk, SetV: setv, MaxStreams: 2, Depth: depth})
+		}
+	}
+	out = append(out, tconfig{Name: "transport/send/large", SrvIWS: ledger.DefaultWindow, ConnRoom: -1, PerStream: 20000, PerConn: 65535,
+		BodyN: []int64{70000}, WUk: []int64{1, 20000}, SetV: []int64{0, 100000}, MaxStreams: 2, Depth: depth})
+	// response DATA against the transport's advertised windows
+	for _, per := range []int{10, 20000, 70000} {
+		out = append(out, tconfig{Name: fmt.Sprintf("transport/recv/stream%d", per), SrvIWS: ledger.DefaultWindow, ConnRoom: -1, PerStream: per, PerConn: 65535,
+			DataLen: lens, Pads: pads, ReadN: []int64{1, 100000}, ClosedLen: []int64{5, 16384}, MaxStreams: 2, Depth: depth})
+	}
+	return out
+}
+
 // single-stream histories whose returns to "no open stream" are amplified
 func cycleConfigs(thorough bool) []config {
 	var out []config
@@ -181,9 +215,33 @@ func duplexConfigs(thorough bool) []config {
 
 // ---------------------------------------------------------------- BFS
 
+// space is one configuration of one of the two subjects (server / transport) as the BFS sees it.
+type space struct {
+	Name   string
+	Mode   string // send recv duplex transport
+	Depth  int
+	Cycles bool
+	cfg    config  // server subject
+	tcfg   tconfig // transport subject
+}
+
+func (sp space) run(t *testing.T, seq []act, keepTrace bool) result {
+	if sp.Mode == "transport" {
+		return trun(t, sp.tcfg, seq, keepTrace)
+	}
+	return run(t, sp.cfg, seq, keepTrace)
+}
+
+func serverSpace(c config) space {
+	return space{Name: c.Name, Mode: c.Mode, Depth: c.Depth, Cycles: c.Cycles, cfg: c}
+}
+func transportSpace(c tconfig) space {
+	return space{Name: c.Name, Mode: "transport", Depth: c.Depth, tcfg: c}
+}
+
 type found struct {
 	v   ledger.Violation
-	cfg config
+	sp  space
 	seq []act
 	amp int // >0: seq is a cycle that was repeated amp times on one connection
 }
@@ -203,8 +261,8 @@ type node struct {
 
 func sigOf(v ledger.Violation) string { return v.Kind + ":" + v.Cause }
 
-func explore(t *testing.T, rep *ev.Report, cfg config, deadline time.Time, founds map[string]found, st *stats, onEmpty func(seq []act)) {
-	root := run(t, cfg, nil, false)
+func explore(t *testing.T, rep *ev.Report, cfg space, deadline time.Time, founds map[string]found, st *stats, onEmpty func(seq []act)) {
+	root := cfg.run(t, nil, false)
 	st.runs++
 	if root.harness != "" {
 		rep.HarnessError("%s: %s", cfg.Name, root.harness)
@@ -214,7 +272,7 @@ func explore(t *testing.T, rep *ev.Report, cfg config, deadline time.Time, found
 		for _, v := range r.viol {
 			k := cfg.Mode + ":" + sigOf(v)
 			if _, ok := founds[k]; !ok {
-				founds[k] = found{v: v, cfg: cfg, seq: append([]act(nil), seq...)}
+				founds[k] = found{v: v, sp: cfg, seq: append([]act(nil), seq...)}
 			}
 		}
 	}
@@ -231,7 +289,7 @@ func explore(t *testing.T, rep *ev.Report, cfg config, deadline time.Time, found
 					return
 				}
 				seq := append(append(make([]act, 0, len(n.seq)+1), n.seq...), a)
-				r := run(t, cfg, seq, false)
+				r := cfg.run(t, seq, false)
 				st.runs++
 				st.transitions++
 				if r.harness != "" {
@@ -239,7 +297,7 @@ func explore(t *testing.T, rep *ev.Report, cfg config, deadline time.Time, found
 					continue
 				}
 				if st.transitions%50 == 1 { // determinism self-check
-					r2 := run(t, cfg, seq, false)
+					r2 := cfg.run(t, seq, false)
 					st.rechecked++
 					if r2.key != r.key || len(r2.viol) != len(r.viol) {
 						rep.HarnessError("non-deterministic execution %s %v: %q vs %q", cfg.Name, seqString(seq), r.key, r2.key)
@@ -286,7 +344,7 @@ func terminalKind(r result) string {
 }
 
 // featureOf buckets an execution by the multiset of action kinds (sizes abstracted), for the coverage count.
-func featureOf(cfg config, seq []act, r result) string {
+func featureOf(cfg space, seq []act, r result) string {
 	ks := make([]string, 0, len(seq))
 	for _, a := range seq {
 		k := a.K
@@ -406,8 +464,8 @@ func amplify(t *testing.T, cfg config, cyc []act, maxIter int, keepTrace bool) (
 	return res
 }
 
-func ampOne(t *testing.T, rep *ev.Report, cfg config, cyc []act, founds map[string]found, st *stats) {
-	r := amplify(t, cfg, cyc, ampMaxIter, false)
+func ampOne(t *testing.T, rep *ev.Report, cfg space, cyc []act, founds map[string]found, st *stats) {
+	r := amplify(t, cfg.cfg, cyc, ampMaxIter, false)
 	st.runs++
 	st.cycles++
 	st.cycleIters += int64(r.iters)
@@ -418,7 +476,7 @@ func ampOne(t *testing.T, rep *ev.Report, cfg config, cyc []act, founds map[stri
 	for _, v := range r.viol {
 		k := cfg.Mode + ":amp:" + sigOf(v)
 		if _, ok := founds[k]; !ok {
-			founds[k] = found{v: v, cfg: cfg, seq: append([]act(nil), cyc...), amp: r.iters}
+			founds[k] = found{v: v, sp: cfg, seq: append([]act(nil), cyc...), amp: r.iters}
 		}
 	}
 	switch {
@@ -458,11 +516,24 @@ func TestCheck(t *testing.T) {
 		replayFile(t, rep, rp)
 		return
 	}
-	cfgs := append(sendConfigs(thorough), recvConfigs(thorough)...)
-	cfgs = append(cfgs, duplexConfigs(thorough)...)
-	cfgs = append(cfgs, cycleConfigs(thorough)...)
+	var cfgs []space
+	for _, c := range sendConfigs(thorough) {
+		cfgs = append(cfgs, serverSpace(c))
+	}
+	for _, c := range recvConfigs(thorough) {
+		cfgs = append(cfgs, serverSpace(c))
+	}
+	for _, c := range duplexConfigs(thorough) {
+		cfgs = append(cfgs, serverSpace(c))
+	}
+	for _, c := range transportConfigs(thorough) {
+		cfgs = append(cfgs, transportSpace(c))
+	}
+	for _, c := range cycleConfigs(thorough) {
+		cfgs = append(cfgs, serverSpace(c))
+	}
 	if only := os.Getenv("VERIF_C12_ONLY"); only != "" { // experiments only
-		var sel []config
+		var sel []space
 		for _, c := range cfgs {
 			if strings.Contains(c.Name, only) {
 				if d, _ := strconv.Atoi(os.Getenv("VERIF_C12_DEPTH")); d > 0 {
@@ -546,9 +617,9 @@ func report(t *testing.T, rep *ev.Report, founds map[string]found) {
 		var last result
 		for i := 0; i < 5; i++ {
 			if f.amp > 0 {
-				last = amplify(t, f.cfg, f.seq, f.amp, true).result
+				last = amplify(t, f.sp.cfg, f.seq, f.amp, true).result
 			} else {
-				last = run(t, f.cfg, f.seq, true)
+				last = f.sp.run(t, f.seq, true)
 			}
 			for _, v := range last.viol {
 				if v.Kind == f.v.Kind && v.Cause == f.v.Cause {
@@ -558,17 +629,21 @@ func report(t *testing.T, rep *ev.Report, founds map[string]found) {
 			}
 		}
 		if okN != 5 {
-			rep.HarnessError("violation did not reproduce 5/5 (%d): %s %v: %v", okN, f.cfg.Name, seqString(f.seq), f.v)
+			rep.HarnessError("violation did not reproduce 5/5 (%d): %s %v: %v", okN, f.sp.Name, seqString(f.seq), f.v)
 			continue
 		}
-		sig := map[string]any{"kind": f.v.Kind, "side": f.cfg.Mode}
+		sig := map[string]any{"kind": f.v.Kind, "side": f.sp.Mode}
 		what := f.v.String()
 		if f.v.Cause != "" {
 			sig["cause"] = f.v.Cause
 			what += " [" + f.v.Cause + "]"
 		}
-		rep.Violate(sig, map[string]any{"config": f.cfg, "seq": f.seq, "amplify": f.amp, "actions": seqString(f.seq), "wire": last.trace},
-			"%s after %v%s in configuration %s", what, seqString(f.seq), map[bool]string{true: fmt.Sprintf(" repeated x%d on one connection", f.amp), false: ""}[f.amp > 0], f.cfg.Name)
+		var cfgJSON any = f.sp.cfg
+		if f.sp.Mode == "transport" {
+			cfgJSON = f.sp.tcfg
+		}
+		rep.Violate(sig, map[string]any{"side": f.sp.Mode, "config": cfgJSON, "seq": f.seq, "amplify": f.amp, "actions": seqString(f.seq), "wire": last.trace},
+			"%s after %v%s in configuration %s", what, seqString(f.seq), map[bool]string{true: fmt.Sprintf(" repeated x%d on one connection", f.amp), false: ""}[f.amp > 0], f.sp.Name)
 	}
 }
 
@@ -581,21 +656,32 @@ func replayFile(t *testing.T, rep *ev.Report, path string) {
 	}
 	var f struct {
 		Replay struct {
-			Config  config `json:"config"`
-			Seq     []act  `json:"seq"`
-			Amplify int    `json:"amplify"`
+			Side    string          `json:"side"`
+			Config  json.RawMessage `json:"config"`
+			Seq     []act           `json:"seq"`
+			Amplify int             `json:"amplify"`
 		} `json:"replay"`
 	}
 	if err := json.Unmarshal(b, &f); err != nil {
 		rep.HarnessError("replay: %v", err)
 		return
 	}
+	var sp space
+	if f.Replay.Side == "transport" {
+		var c tconfig
+		json.Unmarshal(f.Replay.Config, &c)
+		sp = transportSpace(c)
+	} else {
+		var c config
+		json.Unmarshal(f.Replay.Config, &c)
+		sp = serverSpace(c)
+	}
 	rep.NotExhaustive("replay of one counterexample")
 	var r result
 	if f.Replay.Amplify > 0 {
-		r = amplify(t, f.Replay.Config, f.Replay.Seq, f.Replay.Amplify, true).result
+		r = amplify(t, sp.cfg, f.Replay.Seq, f.Replay.Amplify, true).result
 	} else {
-		r = run(t, f.Replay.Config, f.Replay.Seq, true)
+		r = sp.run(t, f.Replay.Seq, true)
 	}
 	rep.Add("states", 1)
 	rep.Add("transitions", int64(len(f.Replay.Seq)))
@@ -606,7 +692,7 @@ func replayFile(t *testing.T, rep *ev.Report, path string) {
 	}
 	founds := map[string]found{}
 	for _, v := range r.viol {
-		founds[sigOf(v)] = found{v: v, cfg: f.Replay.Config, seq: f.Replay.Seq, amp: f.Replay.Amplify}
+		founds[sigOf(v)] = found{v: v, sp: sp, seq: f.Replay.Seq, amp: f.Replay.Amplify}
 	}
 	report(t, rep, founds)
 }
